@@ -40,6 +40,11 @@ const copyBuf = 32 * 1024 // constants.CopyBufferSize: the most one copy-loop Re
 //	fail-read-srvX  the server's Read on X's connection fails once K bytes were read
 //	fail-write-srvX the server's Write on X's connection fails once K bytes were written
 //	bridge-close    Bridge.Close() is called by Closers goroutines at once after K bytes were delivered in total
+//	stall-X-close-Y     X stops reading behind a pipe bounded to K bytes (back-pressure) while Y keeps writing until the
+//	                    server's write towards X is blocked; then Y closes and X sends its remaining bytes
+//	stall-X-halfclose-X same stall; then X, having sent everything, closes its sending side without draining
+//	                    (in both: the server must let go of both connections and forget the tunnel while X still
+//	                    does not read; afterwards X drains a prefix and sees EOF)
 type Ending struct {
 	Kind    string `json:"kind"`
 	K       int    `json:"k"`
@@ -69,6 +74,14 @@ type Case struct {
 	Attach      string `json:"attach"`        // before-start | after-start | after-first-write
 	Stream      bool   `json:"stream"`        // connections carry a StreamProcessor (TunnelOpen path) or are raw (StartServerTunnel path)
 	Mini        bool   `json:"mini,omitempty"` // run through the mini-server: handshakes + TunnelOpen packets, bridge owned by SessionManager
+	// SpreadMs > 0: both writers spread their writes evenly over this many milliseconds (a tunnel that lives)
+	SpreadMs int `json:"spread_ms,omitempty"`
+	// HeartbeatMs > 0 (session rig): SessionConfig.HeartbeatTimeout in ms, CleanupInterval = a quarter of it.
+	// Tunnel connections carry raw bytes and never send heartbeats.
+	HeartbeatMs int `json:"heartbeat_ms,omitempty"`
+	// SameClient (session rig): the mapping's listen and target client are one client that opens both
+	// tunnel connections (loopback mapping)
+	SameClient bool `json:"same_client,omitempty"`
 	Ending      Ending `json:"ending"`
 }
 
@@ -141,12 +154,20 @@ type end struct {
 	writeDone  chan struct{}
 	firstWrite chan struct{}
 
+	stall  chan struct{} // non-nil: the reader does not read until it is closed
+	tail   int           // the writer holds its last tail bytes back until tailGo is closed
+	tailGo chan struct{}
+	gap    time.Duration // pause after every write
+
 	mu  sync.Mutex
 	bad string
 }
 
 func (e *end) reader() {
 	defer close(e.readDone)
+	if e.stall != nil {
+		<-e.stall
+	}
 	buf := make([]byte, 64*1024)
 	off := 0
 	for {
@@ -184,8 +205,16 @@ func (e *end) reader() {
 func (e *end) writer(sizes []int, upTo int, pace int, closeAfter bool) {
 	defer close(e.writeDone)
 	off, i, first := 0, 0, false
+	held := e.tail > 0 && e.tail <= upTo
 	for off < upTo {
+		if held && off >= upTo-e.tail {
+			<-e.tailGo
+			held = false
+		}
 		sz := upTo - off
+		if held && sz > upTo-e.tail-off {
+			sz = upTo - e.tail - off
+		}
 		if len(sizes) > 0 {
 			sz = sizes[i%len(sizes)]
 			i++
@@ -194,6 +223,9 @@ func (e *end) writer(sizes []int, upTo int, pace int, closeAfter bool) {
 			}
 			if sz > upTo-off {
 				sz = upTo - off
+			}
+			if held && sz > upTo-e.tail-off {
+				sz = upTo - e.tail - off
 			}
 		}
 		n, err := e.conn.Write(e.send[off : off+sz])
@@ -208,6 +240,9 @@ func (e *end) writer(sizes []int, upTo int, pace int, closeAfter bool) {
 		}
 		if err != nil {
 			return
+		}
+		if e.gap > 0 {
+			time.Sleep(e.gap)
 		}
 		switch pace {
 		case 1:
@@ -224,6 +259,23 @@ func (e *end) writer(sizes []int, upTo int, pace int, closeAfter bool) {
 	if closeAfter {
 		e.closeClient()
 	}
+}
+
+// spreadGap is the pause after each write that spreads a writer's writes over ms milliseconds.
+func spreadGap(ms int, sizes []int, n int) time.Duration {
+	writes := 1
+	if len(sizes) > 0 && n > 0 {
+		writes = 0
+		for off, i := 0, 0; off < n; i++ {
+			sz := sizes[i%len(sizes)]
+			if sz < 1 {
+				sz = 1
+			}
+			off += sz
+			writes++
+		}
+	}
+	return time.Duration(ms) * time.Millisecond / time.Duration(writes)
 }
 
 func (e *end) closeClient() {
@@ -298,10 +350,44 @@ func runCase(c Case, boundScale int) (*failure, *obs) {
 	aN, bN, aS, bS := r.aN, r.bN, r.aS, r.bS
 	A := &end{name: "A", conn: aN, srv: aS, send: pAB, expect: pBA, readDone: make(chan struct{}), writeDone: make(chan struct{}), firstWrite: make(chan struct{})}
 	B := &end{name: "B", conn: bN, srv: bS, send: pBA, expect: pAB, readDone: make(chan struct{}), writeDone: make(chan struct{}), firstWrite: make(chan struct{})}
+	var stallX, stallY *end // back-pressure endings: X stops reading, Y is the other end
+	switch c.Ending.Kind {
+	case "stall-A-close-B", "stall-A-halfclose-A":
+		stallX, stallY = A, B
+	case "stall-B-close-A", "stall-B-halfclose-B":
+		stallX, stallY = B, A
+	}
+	halfClose := strings.Contains(c.Ending.Kind, "halfclose")
+	stallReleased := false
+	if stallX != nil {
+		stallX.stall = make(chan struct{})
+		if !halfClose {
+			stallX.tail = len(stallX.send)/2 + 1
+			stallX.tailGo = make(chan struct{})
+		}
+	}
+	releaseStall := func() {
+		if stallX != nil && !stallReleased {
+			stallReleased = true
+			close(stallX.stall)
+			if stallX.tailGo != nil {
+				select {
+				case <-stallX.tailGo:
+				default:
+					close(stallX.tailGo)
+				}
+			}
+		}
+	}
+	if c.SpreadMs > 0 {
+		A.gap = spreadGap(c.SpreadMs, c.WritesAB, c.LenAB)
+		B.gap = spreadGap(c.SpreadMs, c.WritesBA, c.LenBA)
+	}
 	var bg sync.WaitGroup
 	launched := false
 	defer func() {
 		// nothing of this case may outlive it
+		releaseStall()
 		aN.Close()
 		bN.Close()
 		aS.Close()
@@ -366,6 +452,9 @@ func runCase(c Case, boundScale int) (*failure, *obs) {
 	if c.Mini && kind == "fail-write-srvA" {
 		aS.FailWriteAfter.Store(baseA + int64(c.Ending.K)) // bytes towards A only exist once B is attached and writing
 	}
+	if stallX == A {
+		aN.SetMaxBuffered(c.Ending.K) // the server's writes towards A block once K bytes are unread
+	}
 	launched = true
 	aWriter := false
 	startAWriter := func() {
@@ -385,6 +474,9 @@ func runCase(c Case, boundScale int) (*failure, *obs) {
 		baseB = bN.BytesRead()
 		if c.Mini && kind == "fail-write-srvB" {
 			bS.FailWriteAfter.Store(baseB + int64(c.Ending.K))
+		}
+		if stallX == B {
+			bN.SetMaxBuffered(c.Ending.K)
 		}
 		go B.reader()
 		go B.writer(c.WritesBA, upB, c.Pace, earlyB)
@@ -413,6 +505,7 @@ func runCase(c Case, boundScale int) (*failure, *obs) {
 		return af, o
 	}
 	startDone := r.ended
+	caseStart := time.Now()
 
 	expT := c.expectedTransfer()
 	bound := time.Duration(boundScale) * (baseBound() + 4*expT)
@@ -439,6 +532,9 @@ func runCase(c Case, boundScale int) (*failure, *obs) {
 		if c.Limit > 0 && 2*c.Limit < copyBuf && (o.maxReadA > 2*c.Limit || o.maxReadB > 2*c.Limit) {
 			return "C02/loss/limiter-burst-smaller-than-read/" + limClass(c.Limit)
 		}
+		if c.Mini && c.HeartbeatMs > 0 && time.Since(caseStart) > time.Duration(c.HeartbeatMs)*time.Millisecond {
+			return fmt.Sprintf("C02/session/healthy-tunnel-closed-by-server/older-than-heartbeat-timeout/%s", kind)
+		}
 		dir := ""
 		if B.recv.Load() < int64(c.LenAB) {
 			dir += "a->b"
@@ -459,10 +555,39 @@ func runCase(c Case, boundScale int) (*failure, *obs) {
 	premature := func() bool { return isDone(A.readDone) || isDone(B.readDone) || startDone() }
 	// waitPre waits for a precondition that must come true as long as nobody closed; a closure
 	// observed before it is a loss, an expired deadline without closure is only slowness.
+	// No byte moving anywhere for a whole bound while bytes are due and the tunnel is open is a
+	// stall (a bounded-time expectation: re-run once), not slowness.
 	waitPre := func(pre func() bool) (*failure, bool) {
-		ok := waitFor(bound+5*time.Second, func() bool { return pre() || premature() })
+		progress := func() int64 { return A.recv.Load() + B.recv.Load() + A.sent.Load() + B.sent.Load() }
+		last, lastAt := progress(), time.Now()
+		stalled := false
+		overall := bound + 5*time.Second + time.Duration(c.SpreadMs)*time.Millisecond
+		ok := waitFor(overall, func() bool {
+			if pre() || premature() {
+				return true
+			}
+			if p := progress(); p != last {
+				last, lastAt = p, time.Now()
+			} else if time.Since(lastAt) > bound {
+				stalled = true
+				return true
+			}
+			return false
+		})
 		if pre() {
 			return nil, true
+		}
+		if stalled && !premature() && !aS.IsClosed() && !bS.IsClosed() {
+			fill()
+			dir := ""
+			if B.recv.Load() < int64(upA) {
+				dir += "a->b"
+			}
+			if A.recv.Load() < int64(upB) {
+				dir += "b->a"
+			}
+			return &failure{key: "C02/stalled/" + r.name + "/" + kind + "/" + dir, timing: true,
+				detail: fmt.Sprintf("both ends are attached and nobody closed, yet no byte was delivered for %v: %s", bound, state())}, false
 		}
 		if premature() || aS.IsClosed() || bS.IsClosed() {
 			// let the closure settle so the detail is complete
@@ -512,6 +637,38 @@ func runCase(c Case, boundScale int) (*failure, *obs) {
 		<-A.writeDone
 		<-B.writeDone
 		t0 = time.Now()
+	case "stall-A-close-B", "stall-B-close-A", "stall-A-halfclose-A", "stall-B-halfclose-B":
+		X, Y := stallX, stallY
+		// until the pipe towards X is full and everything else is written, nothing may close
+		f, ok := waitPre(func() bool {
+			if X.conn.Pending() < c.Ending.K || !isDone(Y.writeDone) {
+				return false
+			}
+			if halfClose {
+				return isDone(X.writeDone) && Y.recv.Load() == int64(len(X.send))
+			}
+			return X.sent.Load() == int64(len(X.send)-X.tail) && Y.recv.Load() == X.sent.Load()
+		})
+		if !ok {
+			return f, o
+		}
+		time.Sleep(3 * time.Millisecond) // let the server's copy loop park in its Write towards X
+		t0 = time.Now()
+		if halfClose {
+			X.conn.CloseWrite()
+			X.srv.peerClosed.Store(true)
+		} else {
+			Y.closeClient()
+			close(X.tailGo) // X sends on: the server's write to Y fails
+		}
+		// X is still not reading: the server must let go all the same
+		if !waitFor(bound, func() bool { return aS.IsClosed() && bS.IsClosed() && startDone() }) {
+			fill()
+			return &failure{key: "C02/no-closure/" + kind + "/server-holds-on-while-write-is-back-pressured", timing: true,
+				detail: fmt.Sprintf("%v after the event (end %s not reading, %d bytes unread in a %d-byte pipe) the server still holds connections or the tunnel: ended=%v; %s",
+					time.Since(t0).Round(time.Millisecond), X.name, X.conn.Pending(), c.Ending.K, startDone(), state())}, o
+		}
+		releaseStall()
 	case "bridge-close":
 		f, ok := waitPre(func() bool { return A.recv.Load()+B.recv.Load() >= int64(c.Ending.K) })
 		if !ok {
@@ -589,6 +746,10 @@ func runCase(c Case, boundScale int) (*failure, *obs) {
 	switch kind {
 	case "drain-close-A", "drain-close-B":
 		// established before the close
+	case "stall-A-halfclose-A", "stall-B-halfclose-B":
+		if stallY.recv.Load() != int64(len(stallX.send)) {
+			return &failure{key: lossKey(), detail: stallX.name + " sent everything and closed its sending side but the other end did not receive all of it: " + state()}, o
+		}
 	case "flush-close-A":
 		if B.recv.Load() != int64(c.LenAB) {
 			return &failure{key: lossKey(), detail: "A closed after its last write (nothing else in flight) but B did not receive all of A's bytes: " + state()}, o
@@ -656,7 +817,7 @@ func capBucket(n int) string {
 }
 
 func caseSig(c Case) string {
-	return fmt.Sprintf("%v|%s|%s|%d|%s|%s|%v|%s|%s|%d|%d|%v", c.Mini, sizeBucket(c.LenAB), sizeBucket(c.LenBA), c.Limit, c.Ending.Kind+c.Ending.ErrKind, c.Attach, c.Stream,
+	return fmt.Sprintf("%v|%s|%s|%d|%s|%s|%v|%s|%s|%d|%d|%v", fmt.Sprint(c.Mini, c.SameClient, c.HeartbeatMs > 0), sizeBucket(c.LenAB), sizeBucket(c.LenBA), c.Limit, c.Ending.Kind+c.Ending.ErrKind, c.Attach, c.Stream,
 		capBucket(c.SrvReadCapA), capBucket(c.SrvReadCapB), len(c.WritesAB), len(c.WritesBA), c.DataWithEOF)
 }
 
@@ -747,7 +908,7 @@ func check(t vkit.TB, c Case) {
 		vkit.Class("inconclusive:deadline-without-closure")
 		return
 	}
-	midClose := c.Ending.Kind[:5] == "early" || c.Ending.Kind[:4] == "fail" || c.Ending.Kind == "bridge-close"
+	midClose := c.Ending.Kind[:5] == "early" || c.Ending.Kind[:4] == "fail" || c.Ending.Kind == "bridge-close" || strings.HasPrefix(c.Ending.Kind, "stall")
 	nt := c.LenAB > 0 && c.LenBA > 0 && o.overlap && (c.LenAB > copyBuf || c.LenBA > copyBuf || c.Limit > 0 || midClose)
 	class := c.Ending.Kind
 	if c.Mini {
@@ -792,6 +953,12 @@ func check(t vkit.TB, c Case) {
 	}
 	if c.DataWithEOF {
 		vkit.Class("feat:data-with-EOF")
+	}
+	if c.SameClient {
+		vkit.Class("feat:same-client (loopback) mapping")
+	}
+	if c.HeartbeatMs > 0 {
+		vkit.Class("feat:tunnel outlives the heartbeat timeout")
 	}
 	if o.closeLatency > 0 {
 		latMu.Lock()
@@ -1006,9 +1173,60 @@ func TestSession(t *testing.T) {
 		c := genCase(t, []int64{0, 0, 0, 10 * 1024 * 1024, 64 * 1024, 4096})
 		c.Mini = true
 		c.Stream = true
+		c.SameClient = rapid.IntRange(0, 3).Draw(t, "sameClient") == 0
 		if rapid.Bool().Draw(t, "sourceSpeaksFirst") {
 			c.Attach = "after-first-write" // bytes of the source are pending when the target attaches
 		}
+		check(t, c)
+	})
+}
+
+// TestSessionLongLived: tunnels on the mini-server that stay open for several HeartbeatTimeouts with
+// both ends trickling data and nobody closing: everything must arrive, the tunnel must still be there.
+func TestSessionLongLived(t *testing.T) {
+	property(t, 32, 240, func(t *rapid.T) {
+		c := Case{Mini: true, Stream: true, HeartbeatMs: 150, SpreadMs: rapid.SampledFrom([]int{800, 1000}).Draw(t, "spread")}
+		c.LenAB = rapid.IntRange(200, 60000).Draw(t, "lenAB")
+		c.LenBA = rapid.IntRange(200, 60000).Draw(t, "lenBA")
+		c.SeedAB = uint64(rapid.IntRange(0, 65535).Draw(t, "seedAB"))
+		c.SeedBA = uint64(rapid.IntRange(0, 65535).Draw(t, "seedBA"))
+		n := rapid.IntRange(20, 40).Draw(t, "writes")
+		c.WritesAB, c.WritesBA = []int{c.LenAB/n + 1}, []int{c.LenBA/n + 1}
+		c.Attach = rapid.SampledFrom([]string{"after-start", "after-first-write"}).Draw(t, "attach")
+		c.SameClient = rapid.IntRange(0, 3).Draw(t, "sameClient") == 0
+		c.Ending = Ending{Kind: rapid.SampledFrom([]string{"drain-close-A", "drain-close-B", "flush-close-A", "flush-close-B"}).Draw(t, "ending")}
+		check(t, c)
+	})
+}
+
+// TestBackPressure: one end stops reading behind a bounded pipe while the other floods it, so the
+// server's copy loop is parked in a Write; then the other direction ends (peer closes and the
+// stalled end sends on / the stalled end half-closes). The server must still let go of everything.
+func TestBackPressure(t *testing.T) {
+	property(t, 320, 3200, func(t *rapid.T) {
+		c := Case{Stream: rapid.IntRange(0, 3).Draw(t, "stream") != 0, Mini: rapid.IntRange(0, 2).Draw(t, "mini") == 0}
+		if c.Mini {
+			c.Stream = true
+			c.SameClient = rapid.IntRange(0, 3).Draw(t, "sameClient") == 0
+		}
+		kind := rapid.SampledFrom([]string{"stall-A-close-B", "stall-A-close-B", "stall-A-halfclose-A", "stall-A-halfclose-A", "stall-B-close-A", "stall-B-halfclose-B"}).Draw(t, "ending")
+		pipe := rapid.SampledFrom([]int{4096, 65536, 65536, 200000}).Draw(t, "pipe")
+		flood := pipe + 2*copyBuf + rapid.IntRange(1, 200000).Draw(t, "flood")
+		other := rapid.IntRange(2, 50000).Draw(t, "other")
+		if kind[6] == 'A' { // A stalls: B floods
+			c.LenBA, c.LenAB = flood, other
+		} else {
+			c.LenAB, c.LenBA = flood, other
+		}
+		c.SeedAB = uint64(rapid.IntRange(0, 65535).Draw(t, "seedAB"))
+		c.SeedBA = uint64(rapid.IntRange(0, 65535).Draw(t, "seedBA"))
+		c.WritesAB = genWrites(t, "writesAB", c.LenAB, 2000)
+		c.WritesBA = genWrites(t, "writesBA", c.LenBA, 2000)
+		c.SrvReadCapA = genCap(t, "srvCapA", c.LenAB, 20000)
+		c.SrvReadCapB = genCap(t, "srvCapB", c.LenBA, 20000)
+		c.Limit = rapid.SampledFrom([]int64{0, 0, 10 * 1024 * 1024}).Draw(t, "limit")
+		c.Attach = rapid.SampledFrom([]string{"before-start", "after-start", "after-first-write"}).Draw(t, "attach")
+		c.Ending = Ending{Kind: kind, K: pipe}
 		check(t, c)
 	})
 }
